@@ -64,6 +64,7 @@ func (ft *ftrans) noteScalarRead(e *env, v *gvar) {
 func (ft *ftrans) noteScalarWrite(e *env, v *gvar) {
 	if s, ok := e.st[v]; ok {
 		s.sinit = false
+		s.carry = false
 	}
 }
 
